@@ -76,7 +76,7 @@ func (o Op) String() string {
 	case OpAbortStatusMsg:
 		return fmt.Sprintf("AbortWithStatus(%d,%q)", o.N, o.S)
 	case OpPanic:
-		return fmt.Sprintf("panic(%s)", o.S)
+		return fmt.Sprintf("panic(%s%s)", o.S, [...]string{"", ":http.ErrAbortHandler", ":wrapped-ErrAbortHandler", ":string", ":new-error"}[o.N%5])
 	case OpObserve:
 		return "Observe"
 	case OpHTTPError:
@@ -138,6 +138,26 @@ func (s *Script) NNext() int {
 
 // PanicValue is what a generated handler throws: unique and comparable by identity.
 type PanicValue struct{ Label string }
+
+// PanicKind is the value an OpPanic throws.  Op.N selects its kind: 0 the harness's own pointer value, 1 net/http's
+// sentinel http.ErrAbortHandler (a router has no business treating it specially: containment is for any value),
+// 2 an error wrapping that sentinel, 3 a plain string, 4 a fresh error value.
+func PanicKind(o Op) any {
+	switch o.N % 5 {
+	case 1:
+		return http.ErrAbortHandler
+	case 2:
+		return fmt.Errorf("%s: %w", o.S, http.ErrAbortHandler)
+	case 3:
+		return "panic-text:" + o.S
+	case 4:
+		return errors.New("panic-error:" + o.S)
+	}
+	return &PanicValue{Label: o.S}
+}
+
+// PanicKinds is the generator's menu for Op.N of an OpPanic (the harness's own value most of the time).
+var PanicKinds = []int{0, 0, 0, 1, 1, 2, 3, 4}
 
 // Ctx is what a script needs from a context; implemented by the real
 // rux.Context (RCtx) and by the model (MCtx).
@@ -277,7 +297,7 @@ func Run(s *Script, c Ctx, tr *Trace) {
 			tr.Add("  %s after-abort%s", s.Name, ab(c))
 		case OpPanic:
 			tr.Add("  %s panics", s.Name)
-			v := &PanicValue{Label: o.S}
+			v := PanicKind(o)
 			tr.Thrown = v
 			panic(v)
 		case OpObserve:
